@@ -251,6 +251,42 @@ func (a *idxAnalysis) run() {
 		}
 		return true
 	})
+	// slices of positions: `pos = append(pos, i)` — the elements of an int slice that is only ever appended to with
+	// indices of one space are indices of that space (the slice form of the position map above)
+	ast.Inspect(fd.Body, func(n ast.Node) bool {
+		s, ok := n.(*ast.AssignStmt)
+		if !ok || len(s.Lhs) != 1 || len(s.Rhs) != 1 {
+			return true
+		}
+		id, ok := s.Lhs[0].(*ast.Ident)
+		if !ok {
+			return true
+		}
+		obj := a.info.ObjectOf(id)
+		if obj == nil {
+			return true
+		}
+		sl, isSlice := obj.Type().Underlying().(*types.Slice)
+		if !isSlice || !isIntType(sl.Elem()) {
+			return true
+		}
+		sp := ""
+		if call, isCall := s.Rhs[0].(*ast.CallExpr); isCall {
+			if fid, isID := call.Fun.(*ast.Ident); isID && fid.Name == "append" && len(call.Args) == 2 && !call.Ellipsis.IsValid() {
+				if first, isID := call.Args[0].(*ast.Ident); isID && a.info.ObjectOf(first) == obj {
+					sp = a.idxOf(call.Args[1])
+				}
+			} else if isID && fid.Name == "make" {
+				return true // the empty slice it starts from
+			}
+		}
+		if old, seen := a.mapVal[obj]; seen && old != sp {
+			a.mapVal[obj] = "" // conflicting, or assigned otherwise
+		} else if !seen {
+			a.mapVal[obj] = sp
+		}
+		return true
+	})
 	// accesses
 	ast.Inspect(fd.Body, func(n ast.Node) bool {
 		switch x := n.(type) {
@@ -741,6 +777,11 @@ func (a *idxAnalysis) idxOf(x ast.Expr) string {
 			if obj := a.info.ObjectOf(id); obj != nil {
 				if _, isMap := obj.Type().Underlying().(*types.Map); isMap {
 					return a.mapVal[obj]
+				}
+				if sl, isSlice := obj.Type().Underlying().(*types.Slice); isSlice && isIntType(sl.Elem()) {
+					if _, isVar := obj.(*types.Var); isVar && obj.Parent() != nil && obj.Parent() != obj.Pkg().Scope() {
+						return a.mapVal[obj]
+					}
 				}
 			}
 		}
